@@ -158,6 +158,7 @@ def step (st : St) (line : String) : St × String :=
   | ["settlems", _] => (st, "ok")
   | ["reset", n, _] => ({ w := World.init n.toNat! }, "ok")
   | ["realtime", _] => (st, "ok")
+  | ["longsettle", _] => (st, "ok")
   | ["stall", c, _] => if known st c then (st, "ok") else (st, "noclient")   -- time is not part of the model: nothing changes
   | ["mute", c, v] =>
     if !known st c then (st, "noclient") else
